@@ -345,3 +345,50 @@ Qed.
 Lemma refused_every_form : forall m ma b, to_ip ma = Some b -> ip_refused m b = true ->
   intercept_addr_dial m (to_ip ma) = false /\ intercept_accept m (to_ip ma) = false.
 Proof. intros m ma b E H. rewrite E. cbn. rewrite H. split; reflexivity. Qed.
+
+(* ---- addresses known by name ------------------------------------------------------------- *)
+(* everything the outbound path does with the addresses of a peer: every gated,
+   dialed and connected-to address is one the resolution produced, and a
+   transport only ever gets an address InterceptAddrDial let through *)
+Lemma rdial_addrs_In : forall m addrs e, In e (rdial_addrs m addrs) ->
+  exists a, In a addrs /\
+    (e = RvAddrDial (Some a) (intercept_addr_dial m (Some a)) \/
+     (intercept_addr_dial m (Some a) = true /\ (e = RvTptDial (Some a) \/ e = RvTptConn a))).
+Proof.
+  intros m addrs. induction addrs as [|a r IH]; intros e H; cbn [rdial_addrs] in H; [contradiction|].
+  destruct H as [H|H]; [exists a; split; [left; reflexivity|left; symmetry; exact H]|].
+  apply in_app_or in H. destruct H as [H|H].
+  - exists a. split; [left; reflexivity|]. right.
+    destruct (intercept_addr_dial m (Some a)); [|contradiction]. split; [reflexivity|].
+    destruct H as [H|[H|[]]]; [left|right]; symmetry; exact H.
+  - destruct (IH e H) as [b [Hb Hc]]. exists b. split; [right; exact Hb|exact Hc].
+Qed.
+
+Lemma rdial_spec : forall m p l e, In e (rdial m p l) ->
+  match e with
+  | RvPeerDial allow => allow = intercept_peer_dial m p
+  | RvAddrDial oa allow =>
+      exists a, oa = Some a /\ In a (resolve_addrs l) /\ allow = negb (ip_refused m a) /\ peer_blocked m p = false
+  | RvTptDial oa =>
+      exists a, oa = Some a /\ In a (resolve_addrs l) /\ ip_refused m a = false /\ peer_blocked m p = false
+  | RvTptConn a => In a (resolve_addrs l) /\ ip_refused m a = false /\ peer_blocked m p = false
+  end.
+Proof.
+  intros m p l e H. unfold rdial in H. destruct H as [H|H]; [subst e; reflexivity|].
+  unfold intercept_peer_dial in H. destruct (peer_blocked m p) eqn:Ep; [contradiction|]. cbn [negb] in H.
+  apply rdial_addrs_In in H. destruct H as [a [Ha [H|[Hok [H|H]]]]]; subst e.
+  - exists a. repeat split; auto.
+  - cbn in Hok. apply negb_true_iff in Hok. exists a. repeat split; auto.
+  - cbn in Hok. apply negb_true_iff in Hok. repeat split; auto.
+Qed.
+
+Lemma resolve_addrs_In : forall l a, In a (resolve_addrs l) <->
+  exists k, In k l /\ (k = KIp a \/ exists ans, k = KName (Some ans) /\ In a ans).
+Proof.
+  intros l a. unfold resolve_addrs. rewrite in_flat_map. split.
+  - intros [k [Hk H]]. exists k. split; [exact Hk|]. destruct k as [b|[ans|]]; cbn in H.
+    + destruct H as [H|[]]. left. congruence.
+    + right. eauto.
+    + contradiction.
+  - intros [k [Hk [->|[ans [-> H]]]]]; eexists; (split; [exact Hk|]); cbn; auto.
+Qed.
